@@ -100,7 +100,7 @@ GhostInit == [q2in |-> <<>>, unacked |-> <<>>, txed |-> <<>>, ackd |-> <<>>, pub
               seen |-> {}, connacks |-> <<>>, discd |-> {}, rm |-> <<>>, tam |-> <<>>, mps |-> <<>>,
               will |-> <<>>, pendw |-> <<>>, nowill |-> {}, willsent |-> {}, aliasOut |-> <<>>, aliasIn |-> <<>>,
               expm |-> <<>>, deadR |-> {}, deadI |-> {}, dsdel |-> <<>>, resentOn |-> {},
-              sdr |-> {}, rdr |-> {}, clob |-> <<>>, wipedw |-> {}, rpi |-> <<>>, subG |-> <<>>, optG |-> <<>>, stq |-> <<>>, inlG |-> {}]
+              sdr |-> {}, rdr |-> {}, clob |-> <<>>, wipedw |-> {}, rpi |-> <<>>, subG |-> <<>>, optG |-> <<>>, stq |-> <<>>, inlG |-> {}, subL |-> <<>>]
 
 (* ================================================================== publications of a step *)
 Qos2Open(c, pid) == pid \in Get(g.q2in, c, {})
@@ -168,6 +168,12 @@ J_C03(i) ==
         \* nobody outside the entitled set (and the members of matching shared subscriptions) gets it
         ForAll(Receivers(i) \ (E \cup (IF Routed(i) THEN sharedMembers ELSE {})),
                LAMBDA d : Cmp("C03.unentitled-delivery", d, p.m, 0)),
+        \* ... and, judged by the protocol history instead of the broker's topic index: a client whose current session has
+        \* subscribed to nothing that matches the topic gets nothing (subscriptions of a discarded session left in the index
+        \* entitle nobody)
+        ForAll({d \in Receivers(i) : HasClient(Pre(i), d) /\ d \in DOMAIN g.subL
+                                      /\ ~(\E f \in g.subL[d] : IF f # <<>> /\ f[1] = "$share" /\ Len(f) > 2 THEN Matches(SubSeq(f, 3, Len(f)), p.t) ELSE Matches(f, p.t))},
+               LAMBDA d : Cmp("C03.delivery-without-subscription-in-session", d, p.m, 0)),
         \* every entitled client gets it unless excused
         \* (the publisher's own copy withheld because ANOTHER of its matching subscriptions has No
         \*  Local is reported under its own rule name: it is the signature of a recorded finding)
@@ -627,6 +633,15 @@ GhostNextOf(i) ==
         \* UNSUBSCRIBEs since the session began) - deliberately not read from the broker's topic index
         \* the inline subscriptions according to the API history: <<identifier, filter>>
         inlG |-> InlNext(g.inlG, e),
+        \* the same as level sequences (for matching): what the current session of a client has subscribed to
+        subL |-> [c0 \in ids |->
+                    LET base == IF SessionEndsIn(i, c0) THEN {} ELSE Get(g.subL, c0, {})
+                        sa == SelectSeq(OutOf(e, e.k), LAMBDA q : q.t = SUBACK) IN
+                    IF ok /\ e.c = c0 /\ e.ev = "subscribe" /\ Len(sa) = 1 /\ Len(sa[1].codes) = Len(e.a.filters)
+                      THEN base \cup {e.a.filters[n].f : n \in {m \in 1..Len(e.a.filters) : sa[1].codes[m] < 128}}
+                    ELSE IF ok /\ e.c = c0 /\ e.ev = "unsubscribe"
+                      THEN base \ {e.a.filters[n].f : n \in 1..Len(e.a.filters)}
+                    ELSE base],
         subG |-> [c0 \in ids |->
                     LET base == IF SessionEndsIn(i, c0) THEN {} ELSE Get(g.subG, c0, {})
                         sa == SelectSeq(OutOf(e, e.k), LAMBDA q : q.t = SUBACK) IN
